@@ -1,4 +1,5 @@
 import PlcModel.Lex
+import PlcModel.Lsp
 
 /-!
 # plcdrv: line protocol driver for the executable model
@@ -40,6 +41,61 @@ def showItems (orig : List Char) (items : List Item) : String :=
   " ".intercalate ((items.filter (!·.err)).map (showItem orig)) ++ " | " ++
   " ".intercalate ((items.filter (·.err)).map (showItem orig))
 
+/-! ### LSP histories: `lsp m1 m2 ...` with
+`open:<uri>:<ver>:<hex>`, `change:<uri>:<ver>:x<hex>,x<hex>…` (possibly none), `semtok:<id>:<uri>`,
+`req:<id>:<method>`, `notif:<method>`, `resp:<id>`, `shutdown:<id>`, `exit`; uri = `f<k>` | `n<k>` -/
+
+def parseUri (s : String) : Option Uri :=
+  match s.toList with
+  | 'f' :: ds => (String.ofList ds).toNat?.map Uri.file
+  | 'n' :: ds => (String.ofList ds).toNat?.map Uri.other
+  | _ => none
+
+def showUri : Uri → String
+  | .file k => s!"f{k}"
+  | .other k => s!"n{k}"
+
+def parseChanges (s : String) : Option (List (List Char)) :=
+  if s.isEmpty then some [] else
+  (s.splitOn ",").foldr (fun h acc => match unhexText (h.drop 1).toString, acc with
+    | some t, some l => some (t :: l)
+    | _, _ => none) (some [])
+
+def parseMsg (s : String) : Option Msg :=
+  match s.splitOn ":" with
+  | ["open", u, v, h] => do
+    let u ← parseUri u; let v ← v.toInt?; let t ← unhexText h
+    pure (.didOpen u v t)
+  | ["change", u, v, hs] => do
+    let u ← parseUri u; let v ← v.toInt?; let cs ← parseChanges hs
+    pure (.didChange u v cs)
+  | ["semtok", i, u] => do
+    let i ← i.toNat?; let u ← parseUri u
+    pure (.semTok i u)
+  | ["req", i, m] => do let i ← i.toNat?; pure (.unknownReq i m)
+  | ["notif", m] => some (.unknownNotif m)
+  | ["resp", i] => do let i ← i.toNat?; pure (.response i)
+  | ["shutdown", i] => do let i ← i.toNat?; pure (.shutdown i)
+  | ["exit"] => some .exit
+  | _ => none
+
+def showOut : Out → String
+  | .publish u v _ => s!"pub:{showUri u}:{v}"
+  | .tokens i none => s!"tok:{i}:null"
+  | .tokens i (some d) => s!"tok:{i}:" ++ ",".intercalate (d.map toString)
+  | .error i c => s!"err:{i}:{c}"
+  | .shutdownReply i => s!"shut:{i}"
+
+def handleLsp (ws : List String) : String :=
+  match ws.foldr (fun w acc => match parseMsg w, acc with
+      | some m, some l => some (m :: l)
+      | _, _ => none) (some []) with
+  | none => "bad-arg"
+  | some h =>
+    let r := run h
+    let code := match r.phase with | .exited c => s!"exit:{c}" | .running => "running"
+    " ".intercalate (r.outs.map showOut ++ [code])
+
 def handle (line : String) : String :=
   match line.trimAscii.toString.splitOn " " with
   | ["lex", h] =>
@@ -50,6 +106,13 @@ def handle (line : String) : String :=
     match unhexText h with
     | some cs => showItems cs (lexItems cs)
     | none => "bad-arg"
+  | ["semtok", h] =>
+    match unhexText h with
+    | some cs => (match semTokens cs with
+        | none => "null"
+        | some d => ",".intercalate (d.map toString))
+    | none => "bad-arg"
+  | "lsp" :: ws => handleLsp ws
   | _ => "bad-op"
 
 partial def loop (h : IO.FS.Stream) (out : IO.FS.Stream) : IO Unit := do
